@@ -578,3 +578,120 @@ class Arith:
                 elif any(c[0] == "?" for c in cls):
                     verdict = "undecided"
                 yield fn, b, kind, cls, verdict, detail
+
+
+def offset_index_sites(facts, scope):
+    """index expressions `a[i + k]` (k > 0 a constant) whose `i` is the variable of an integer range loop
+    (`for i in lo..hi`, `(lo..hi).step_by(n)`): yield (fn, block, k, guarded).  The range only keeps `i` itself below `hi`, so
+    `i + k` needs its own guard: guarded = some dominating ordered comparison (other than the bounds check itself) has an
+    operand computed by an addition on that `i`, or the bound of the range was computed by a subtraction (`0..len - k`)."""
+    def copies_root(fn, fl, l, depth=5):
+        while depth > 0:
+            ds = [d for d in fl.defs.get(l, ()) if d[0] == "stmt"]
+            if len(ds) == 1:
+                rv = fn.blocks[ds[0][1]][0][ds[0][2]][2]
+                if rv[0] == "use":
+                    p = FL.op_place(rv[1])
+                    if p is not None and not p[1]:
+                        l = p[0]
+                        depth -= 1
+                        continue
+            break
+        return l
+
+    def add_base(fn, fl, local):
+        """local = (x + k).0  ->  (x, k)"""
+        for d in fl.defs.get(local, ()):
+            if d[0] != "stmt":
+                continue
+            rv = fn.blocks[d[1]][0][d[2]][2]
+            src = FL.op_place(rv[1]) if rv[0] == "use" else None
+            if src is not None and src[1] and fn.locals[src[0]].startswith("("):
+                for d2 in fl.defs.get(src[0], ()):
+                    if d2[0] == "stmt":
+                        r2 = fn.blocks[d2[1]][0][d2[2]][2]
+                        if r2[0] == "bin" and r2[1].startswith("Add"):
+                            for x, y in ((r2[2], r2[3]), (r2[3], r2[2])):
+                                k = FL.op_const(y)
+                                px = FL.op_place(x)
+                                if isinstance(k, int) and not isinstance(k, bool) and k > 0 and px is not None and not px[1]:
+                                    return px[0], k
+        return None
+
+    def range_var(fn, fl, l):
+        """is l the payload of `Iterator::next` on an integer Range / StepBy<Range>?  returns the next() block or None"""
+        for d in fl.defs.get(l, ()):
+            if d[0] != "stmt":
+                continue
+            rv = fn.blocks[d[1]][0][d[2]][2]
+            if rv[0] != "use":
+                continue
+            p = FL.op_place(rv[1])
+            if p is None or not p[1] or not any(isinstance(x, list) and x[0] == "d" and x[1] == "Some" for x in p[1]):
+                continue
+            for d2 in fl.defs.get(p[0], ()):
+                if d2[0] == "call":
+                    c = fn.term(d2[1])[1]
+                    st = (c.get("self") or "") if isinstance(c, dict) else ""
+                    if L.is_call_to(c, ["Iterator::next"]) and ("std::ops::Range<usize>" in st or "StepBy<std::ops::Range<usize>>" in st):
+                        return d2[1]
+        return None
+    for fid in sorted(scope):
+        fn = facts.fns.get(fid)
+        if fn is None:
+            continue
+        fl = None
+        g = None
+        for b, blk in enumerate(fn.blocks):
+            t = blk[1]
+            idx = None
+            if t[0] == "assert" and str(t[3]).startswith("BoundsCheck") and len(t[4]) > 1:
+                idx = t[4][1]
+            elif t[0] == "call" and isinstance(t[1], dict) and L.is_call_to(t[1], ["Index::index", "IndexMut::index_mut"]) and len(t[2]) > 1 \
+                    and ("Vec<" in (t[1].get("self") or "") or "[" in (t[1].get("self") or "")):
+                idx = t[2][1]
+            if idx is None:
+                continue
+            pl = FL.op_place(idx)
+            if pl is None or pl[1] or fn.locals[pl[0]] != "usize":
+                continue
+            fl = fl or FL.flow(fn)
+            g = g or CF.cfg(fn)
+            ba = add_base(fn, fl, pl[0]) or add_base(fn, fl, copies_root(fn, fl, pl[0]))
+            if not ba:
+                continue
+            i0 = copies_root(fn, fl, ba[0])
+            nb = range_var(fn, fl, i0)
+            if nb is None:
+                continue
+            k = ba[1]
+            ok = False
+            for sb in g.dominators(b):
+                tsb = fn.term(sb)
+                assert_cond = FL.op_place(tsb[1])[0] if tsb[0] == "assert" and FL.op_place(tsb[1]) else None
+                for st in fn.blocks[sb][0]:
+                    rv = st[2]
+                    if rv[0] != "bin" or rv[1] not in ("Lt", "Le", "Gt", "Ge"):
+                        continue
+                    if assert_cond is not None and st[1] == [assert_cond, []]:
+                        continue
+                    for o in (rv[2], rv[3]):
+                        p = FL.op_place(o)
+                        if p is None or p[1]:
+                            continue
+                        ba2 = add_base(fn, fl, p[0]) or add_base(fn, fl, copies_root(fn, fl, p[0]))
+                        if ba2 and copies_root(fn, fl, ba2[0]) == i0:
+                            ok = True
+            # the range's upper bound was itself computed by a subtraction (`0..len - k`, `saturating_sub`)
+            rt = fn.term(nb)
+            r = L.recv_of(fn, rt[2])
+            if r is not None:
+                seen, drecs = fl.back_slice([r[0]])
+                for dd in drecs:
+                    if dd[0] == "stmt":
+                        r3 = fn.blocks[dd[1]][0][dd[2]][2]
+                        if r3[0] == "bin" and r3[1].startswith("Sub"):
+                            ok = True
+                    elif dd[0] == "call" and L.is_call_to(fn.term(dd[1])[1], ["saturating_sub", "checked_sub", "wrapping_sub", "chunks_exact", "windows"]):
+                        ok = True
+            yield fn, b, k, ok
